@@ -131,7 +131,7 @@ func cmdVerify(pat string, to int, dump, verbose bool) int {
 	// group contracts by module
 	byMod := map[string][]*Contract{}
 	for k, c := range db.Contracts {
-		if c.Extern || !strings.Contains(k, pat) {
+		if c.Extern || c.Trusted != "" || !strings.Contains(k, pat) {
 			continue
 		}
 		m := moduleOf(c.Pkg)
@@ -160,13 +160,15 @@ func cmdVerify(pat string, to int, dump, verbose bool) int {
 		sort.Slice(cs, func(i, j int) bool { return cs[i].Name < cs[j].Name })
 		var frs []*FuncResult
 		for _, c := range cs {
-			fn := eng.fnIndex[c.Pkg+"::"+c.Name]
-			if fn == nil {
+			fns := eng.targets(c)
+			if len(fns) == 0 {
 				fmt.Printf("UNSUPPORTED: contract for unknown function %s::%s (%s:%d)\n", c.Pkg, c.Name, c.File, c.Line)
 				code = 2
 				continue
 			}
-			frs = append(frs, eng.verifyFunc(fn, c))
+			for _, fn := range fns {
+				frs = append(frs, eng.verifyFunc(fn, c))
+			}
 		}
 		dischargeAll(frs, to, 6, false)
 		for _, fr := range frs {
@@ -184,6 +186,9 @@ func cmdVerify(pat string, to int, dump, verbose bool) int {
 			for _, o := range fr.Obls {
 				if o.ok() && !verbose {
 					continue
+				}
+				if o.Expect == "sat" && o.Result.Status != "unsat" && !verbose {
+					continue // cover query inconclusive (quantifiers): not a failure
 				}
 				fmt.Printf("   %-6s %-8s %s  @%s (%s, %dms)\n", map[bool]string{true: "ok", false: "FAIL"}[o.ok()], o.Result.Status, o.Name, o.Pos, o.Result.Backend, o.Result.Ms)
 				if !o.ok() {
